@@ -11,7 +11,7 @@ CLAIMED = {
     "C11": ("TLA+ MC_Levels.tla (TLC ProductIsNextModule on a two-enzyme small world) + Trace_Assembly.tla NextLevel clauses validated by TLC on the eight kit triples",
             "The closed-form product of a kit-shaped vector is decomposed by the next-level enzyme in the specification (all rotations, TLC); for the eight (vector, module, next-level) triples of the kits real assemblies are run, the product typed by the next-level class at random rotations, assembled again at the next level, and two-level chains built; TLC decomposes each product from sites and cuts and checks acceptance, fragments and that the target contains the inserts.",
             "'The whole insert' of a module that itself embeds the next-level sites (YTKProduct) is read as the stretch between those cuts (DESIGN 5).", "6/C11"),
-    "C20": ("TLA+ Registry.tla: TLC over all addition histories of a combined registry + every history replayed on a real CombinedRegistry + TLC validation of complete observations of real registries",
+    "C20": ("TLA+ Registry.tla: TLC over all addition histories of a combined registry (nested, repeated and live growing members, observations in between) + every history replayed on a real CombinedRegistry + TLC validation of complete observations of real registries",
             "Union/first-wins/keys-once are invariants of the specification's Add machine (TLC, incl. nested and repeated members); each enumerated history is executed on a real CombinedRegistry; the five embedded registries (362 items, exhaustive), their combinations and generated directories are observed completely and judged by the trace specification.",
             "GenBank parsing / resistance inference are exercised, not modelled.", "6/C20"),
 
@@ -29,7 +29,7 @@ CLAIMED = {
     "C09": ("TLA+ Trace_Assembly.tla: provenance clauses (MetaRequested, SourcesTile, SourcesVerbatim) + GenBank round-trip identity, validated by TLC on real products",
             "Generated source features are identified and required to tile the product and to cover text occurring verbatim in the named plasmid; id/name/topology/comment; round trip through Bio.SeqIO judged as identity on sequence, topology, feature types and denotations.", "GenBank I/O itself is Biopython's (trusted).", "6/C09"),
     "C10": ("TLA+ Trace_Assembly.tla: RefsOnceAndSameTarget through the fragment map + Assembly.tla de-/re-reference steps (TLC)",
-            "Citations are resolved to the references they denote on inputs and product; TLC maps cited features through the fragment map and requires same targets, [n] form, each cited reference once, and that cited inputs assemble like uncited ones.", "Reference lists distinct within a record.", "6/C10"),
+            "Citations are resolved to the references they denote on inputs and product; TLC maps cited features through the fragment map and requires same targets, [n] form, each cited reference once, and that cited inputs assemble like uncited ones.", "Reference lists of any kind: equal entries, entries differing in one field, ten and more entries, citations in any order.", "6/C10"),
     "C19": ("TLA+ Assembly.tla Interchange (TLC) + TLC validation of swap twins against the closed form with one segment exchanged",
             "At the graph level every chain position is determined by overhangs only (TLC); for real assemblies every chain position is replaced by a fresh module with the same overhangs and TLC requires the new product to be the closed form with only that segment exchanged.", "Generated replacements; registry replacements in thorough tier.", "6/C19"),
 
@@ -38,7 +38,7 @@ CLAIMED = {
             "Record lengths 4-6 exhaustive in the model, 4-40 random in traces.", "6/C13"),
     "C14": ("TLA+ CircularRecord.tla: RevComp action in the same state machine (TLC) + replayed transitions + TLC validation of chains mixing rotations and reverse complements",
             "Involution, commutation with rotation and constant spelling are invariants checked by TLC; RevComp transitions are replayed into real records, including pre-states with past-the-end coordinates produced by rotations; chains are validated by denotation.", "Feature table order and compound/simple representation are treated as representation.", "6/C14"),
-    "C15": ("TLA+ CircularRecord.tla operators (OccursCirc, Python slice) + TLC validation of membership/slice/add/wrap traces exhaustive on small records",
+    "C15": ("TLA+ CircularRecord.tla operators (OccursCirc, Python plain and extended slices; MC_Slices theorems) + TLC validation of membership/slice/add/wrap traces exhaustive on small records",
             "Circular membership, linear slices, refusal of + and wrapping are spec operators; TLC recomputes each logged answer: membership for every query length 0..n+2 at every origin and every rotation of small records, every slice bound pair, every operand type on both sides of +, wrapping linear records, aliasing probes.", "Exhaustive on records of length 3-5, random beyond.", "6/C15"),
 
     "C02": ("TLA+ Structure.tla: TLC RotInv on all rotations of small worlds + TLC validation of (record, record >> k) typing traces",
@@ -50,9 +50,9 @@ CLAIMED = {
     "C05": ("TLA+ Structure.tla: TLC PartIffGenericAndSignature on small worlds + TLC validation of part/generic typing and characterize traces",
             "The iff between a signature-typed part and (generic class accepts and IUPAC signature matches) is model-checked on small worlds and evaluated by TLC on every logged query of the 59 signature-typed kit classes and random user signatures; characterize is judged against the candidates' Typing.",
             "Precondition (two sites, unique generic match) evaluated by the spec.", "6/C05"),
-    "C06": ("TLA+ Session.tla: TLC over all validation histories + negative model + every history replayed into real classes + TLC validation of kit-class histories",
+    "C06": ("TLA+ Session.tla (class-level pattern cache) and Wrappers.tla (memoised matches of wrapper objects over mutable records): TLC over all histories + negative models + every history replayed into real classes / wrappers + TLC validation of kit-class histories",
             "The pattern cache is a state variable of the specification; TLC enumerates every history up to the bound, the negative model (inherited lookup) is refuted, each enumerated history is replayed on a freshly built real class tree, and histories over the 85 kit classes run in forked pristine children are validated event by event (answer vs fresh process vs Typing of the class's own structure, cache slots).",
-            "Histories bounded (3/4 calls exhaustive; longer ones random).", "6/C06"),
+            "Histories bounded (3/4 validation calls, 5/6 wrapper steps exhaustive; longer ones random); what a wrapper answers after its record was edited in place is left unspecified (DESIGN 11.6).", "6/C06"),
     "C12": ("TLA+ Structure.tla: TLC StrandSym on small worlds + TLC validation of (record, reverse complement) typing traces",
             "Strand symmetry is an invariant checked by TLC on the small worlds and on every (record, reverse complement) pair driven through the real generic classes over all geometries.",
             "Precondition (exactly two sites) evaluated by the spec; assembly half uses the assembly traces.", "6/C12"),
@@ -95,7 +95,7 @@ man = {
     "engines": [{"name": "tlc", "path": "/opt/veriftools/tla/tla2tools.jar", "serves_properties": sorted(CLAIMED),
                  "kind_free_text": "TLC 1.8 explicit-state model checker; used for model checking the TLA+ specification in spec/ and for validating ndjson traces of the implementation against it"}],
     "checks": checks,
-    "notes": "Model-based verification with an explicit TLA+ specification (spec/*.tla, 24 modules). Every check = TLC on MC_* configurations (+ negative models that must be refuted) + traces of the real code validated by TLC (Trace_*.tla, total verdicts) and/or TLC-enumerated behaviours replayed into the real code. ./check selftest demonstrates the binding (corrupted trace fields are rejected with the expected clause). 9 genuine defects were found and repaired by 'fix:' commits in /repo (KNOWN_FINDINGS.json, all status=fixed). seeded/ holds 63 confirmed seeded changes from independent sub-agents plus the 9 reverts of the repairs, each detected by the quick tier of the owning check (scripts/try_seed.sh). See DESIGN.md section 11.",
+    "notes": "Model-based verification with an explicit TLA+ specification (spec/*.tla, 33 modules). Every check = TLC on MC_* configurations (+ negative models that must be refuted) + traces of the real code validated by TLC (Trace_*.tla, total verdicts) and/or TLC-enumerated behaviours replayed into the real code. ./check selftest demonstrates the binding (corrupted trace fields are rejected with the expected clause). 12 genuine defects were found and repaired by 'fix:' commits in /repo (KNOWN_FINDINGS.json, all status=fixed). seeded/ holds 159 confirmed seeded changes from four rounds of independent sub-agents plus the 9 reverts of the first repairs, each detected by the quick tier of the owning check (scripts/try_seed.sh). See DESIGN.md section 11.",
     "not_applicable": na,
 }
 json.dump(man, open(os.path.join(HERE, "MANIFEST.json"), "w"), indent=1)
